@@ -418,8 +418,10 @@ METHODS = ['_shift_settings_idx', 'ljust', 'rjust', 'center', 'assign_str',
 
 
 def generate_methods(repo):
-    """Generated/Methods.lean: object-mutating methods translated statement by statement (pyobj.py)"""
-    import pyobj
+    """Generated/Methods/<Name>.lean: object-mutating methods translated statement by statement (pyobj.py), one
+    file per method (so that a translation that does not type-check breaks the theorems about that method and
+    about its callers, nothing else), and Generated/Methods.lean importing them all"""
+    import pyobj, re
     path = os.path.join(repo, 'src', 'ansi_string', 'ansi_string.py')
     tree = ast.parse(open(path).read())
     fns = {f.name: f for f in class_methods(tree, 'AnsiString')}
@@ -432,8 +434,18 @@ def generate_methods(repo):
                 if isinstance(st, ast.Assign) and len(st.targets) == 1 and isinstance(st.targets[0], ast.Name) \
                         and st.targets[0].id == 'WITH_ASSERTIONS' and isinstance(st.value, ast.Constant):
                     wa = bool(st.value.value)
-    L = ['/-  GENERATED by harness/translate.py (harness/pyobj.py) from the working tree of the repository — do not edit.',
-         '    Methods of `class AnsiString` that read and write `_s` / `_fmts`, translated statement by statement. -/',
-         'import AnsiModel.Obj', 'import AnsiModel.Replay', 'import AnsiModel.Generated.Wrappers', '', 'namespace Gen', '',
-         pyobj.translate(fns, METHODS, pfns, ifns, wa, have=('pointBool', 'sameSettingReferences', 'findSettingsReferences')), 'end Gen', '']
-    return '\n'.join(L)
+    parts = pyobj.translate(fns, METHODS, pfns, ifns, wa, have=('pointBool', 'sameSettingReferences', 'findSettingsReferences'))
+    files = {}
+    names = [n for n, _ in parts]
+    for k, (nm, text) in enumerate(parts):
+        deps = [d for d in names[:k] if re.search(r'(?<![A-Za-z0-9_.])%s(?![A-Za-z0-9_])' % re.escape(d), text.split(':=', 1)[-1])]
+        mod = nm[0].upper() + nm[1:]
+        L = ['/-  GENERATED by harness/translate.py (harness/pyobj.py) from the working tree of the repository — do not edit.',
+             '    One method of the source, translated statement by statement. -/',
+             'import AnsiModel.Obj', 'import AnsiModel.Replay', 'import AnsiModel.Generated.Wrappers']
+        L += ['import AnsiModel.Generated.Methods.%s' % (d[0].upper() + d[1:]) for d in deps]
+        L += ['', 'namespace Gen', '', text, 'end Gen', '']
+        files['Methods/%s.lean' % mod] = '\n'.join(L)
+    files['Methods.lean'] = '\n'.join(['/-  GENERATED by harness/translate.py — do not edit.  All translated methods. -/'] +
+                                      ['import AnsiModel.Generated.Methods.%s' % (n[0].upper() + n[1:]) for n in names] + [''])
+    return files
